@@ -48,20 +48,21 @@ def NsC.all : List NsC := [.root, .own, .other]
 def NsC.toNat : NsC → Nat
   | .root => 0 | .own => 1 | .other => 2
 
-/-- reason class of the request: what `Reason.Has(HeadlessEndpointUpdate/ServiceUpdate)` say -/
+/-- reason class of the request: no headless reason, only the headless reason, only `ServiceUpdate`,
+    headless mixed with `ServiceUpdate`, headless mixed with `EndpointUpdate` -/
 inductive RC where
-  | plain | headless | service | both
+  | plain | headless | service | both | mixed
   deriving DecidableEq, Repr, Inhabited
 instance : BEq RC := ⟨fun a b => Nat.beq a.ctorIdx b.ctorIdx⟩
 instance : LawfulBEq RC where
   eq_of_beq {a b} h := by cases a <;> cases b <;> first | rfl | exact Bool.noConfusion h
   rfl {a} := by cases a <;> rfl
-def RC.all : List RC := [.plain, .headless, .service, .both]
+def RC.all : List RC := [.plain, .headless, .service, .both, .mixed]
 def RC.toNat : RC → Nat
-  | .plain => 0 | .headless => 1 | .service => 2 | .both => 3
+  | .plain => 0 | .headless => 1 | .service => 2 | .both => 3 | .mixed => 4
 def RC.reasons : RC → List Reason
   | .plain => [.config] | .headless => [.headless] | .service => [.service]
-  | .both => [.headless, .service]
+  | .both => [.headless, .service] | .mixed => [.headless, .endpoint]
 
 def rootNs : Nat := 0
 
@@ -92,9 +93,9 @@ def allT (p : TRow → Bool) : Bool :=
     p { kind := k, pv := pv, ns := n, rc := rc, forced := f, wp := w }
 
 def TRow.idx (r : TRow) : Nat :=
-  ((((r.kind.idx * 6 + r.pv.toNat) * 3 + r.ns.toNat) * 4 + r.rc.toNat) * 2 + r.forced.toNat) * 2 + r.wp.toNat
+  ((((r.kind.idx * 6 + r.pv.toNat) * 3 + r.ns.toNat) * 5 + r.rc.toNat) * 2 + r.forced.toNat) * 2 + r.wp.toNat
 
-def tRows : Nat := 56 * 6 * 3 * 4 * 2 * 2
+def tRows : Nat := 56 * 6 * 3 * 5 * 2 * 2
 
 /-- the model proxy of a T row: namespace 1, own service hostname 6, unchanged merged gateway -/
 def TRow.proxy (r : TRow) : Proxy :=
@@ -153,16 +154,17 @@ inductive Extra where
   | target         -- the changed key names a service of the proxy (ServiceTargets)
   | forced         -- like `none_`, but the request is Forced
   | watchAddr      -- like `none_`, but the proxy watches the Address type (WDS)
+  | prevTarget     -- the changed key names a service of the proxy's PREVIOUS service targets only
   deriving DecidableEq, Repr, Inhabited
 instance : BEq Extra := ⟨fun a b => Nat.beq a.ctorIdx b.ctorIdx⟩
 instance : LawfulBEq Extra where
   eq_of_beq {a b} h := by cases a <;> cases b <;> first | rfl | exact Bool.noConfusion h
   rfl {a} := by cases a <;> rfl
 def Extra.all : List Extra :=
-  [.none_, .selfNoMatch, .selfLocal, .selfPrev, .offButMatching, .target, .forced, .watchAddr]
+  [.none_, .selfNoMatch, .selfLocal, .selfPrev, .offButMatching, .target, .forced, .watchAddr, .prevTarget]
 def Extra.toNat : Extra → Nat
   | .none_ => 0 | .selfNoMatch => 1 | .selfLocal => 2 | .selfPrev => 3 | .offButMatching => 4 | .target => 5
-  | .forced => 6 | .watchAddr => 7
+  | .forced => 6 | .watchAddr => 7 | .prevTarget => 8
 
 structure PRow where
   pv     : PV
@@ -179,10 +181,10 @@ def allP (pv : PV) (p : PRow → Bool) : Bool :=
   Extra.all.all fun e => p { pv := pv, kind := k, ns := n, cur := c, prev := pr, extra := e }
 
 def PRow.idx (r : PRow) : Nat :=
-  ((((r.pv.toNat * 56 + r.kind.idx) * 3 + r.ns.toNat) * 3 + r.cur.toNat) * 3 + r.prev.toNat) * 8
+  ((((r.pv.toNat * 56 + r.kind.idx) * 3 + r.ns.toNat) * 3 + r.cur.toNat) * 3 + r.prev.toNat) * 9
     + r.extra.toNat
 
-def pRows : Nat := 6 * 56 * 3 * 3 * 3 * 8
+def pRows : Nat := 6 * 56 * 3 * 3 * 3 * 9
 
 def PRow.key (r : PRow) : Key := rowKey r.kind r.ns
 
@@ -197,7 +199,8 @@ def PRow.proxy (r : PRow) : Proxy :=
       | .selfNoMatch | .selfPrev => some (9, 1)
       | _ => none),
     prevLocalSvc := (match r.extra with | .selfPrev => some (k.name, k.ns) | _ => none),
-    targets := (match r.extra with | .target => [(k.name, k.ns)] | _ => [(6, 1)]) }
+    targets := (match r.extra with | .target => [(k.name, k.ns)] | _ => [(6, 1)]),
+    prevTargets := (match r.extra with | .prevTarget => [(k.name, k.ns)] | _ => []) }
 
 def PRow.req (r : PRow) : Req :=
   { keys := [r.key], reasons := [.config], forced := (match r.extra with | .forced => true | _ => false) }
